@@ -193,6 +193,11 @@ def main(tier, seed):
                 jobs.append((src, stdins, tmp, "p%d_%d" % (k, lvl), 2)); meta.append((k, lvl, stdins))
         spec = model_exec(want_ops, spec=True, timeout=900)
         want = {o: summarize(s) for o, s in zip(want_ops, spec)}
+        # the model's reading of the emitted program (IR semantics, Prog.run) on the same inputs
+        ir_ops = []
+        for (k, lvl, stdins) in meta:
+            for i in stdins: ir_ops.append("m.irrun %d %s %s 4000" % (lvl, encs[k], enc_text(i)))
+        ir_res = dict(zip(ir_ops, model_lines(ir_ops, timeout=900)))
         with ThreadPoolExecutor(max_workers=NCPU) as ex:
             res = list(ex.map(rustc_and_run, jobs))
         ends = {}
@@ -215,6 +220,23 @@ def main(tier, seed):
                 elif kind == "exit": ok = (so == wo and se == we and rc == int(wend.split(" ")[1]))
                 elif kind == "err": ok = (so == wo and se.startswith(we) and rc not in (0, 1))
                 else: ok = False
+                irr = ir_res.get("m.irrun %d %s %s 4000" % (lvl, encs[k], enc_text(i)), "")
+                mm = re.match(r"O=(\S+) E=(\S+) END (.*)$", irr)
+                if ok and mm:
+                    rep.count("ir-semantics-vs-executable")
+                    io_, ie_, iend = dec_text(mm.group(1)).encode("utf-8"), dec_text(mm.group(2)).encode("utf-8"), mm.group(3)
+                    ik = iend.split(" ")[0]
+                    if ik == "cut" or rc == "timeout":
+                        same = (so.startswith(io_) or io_.startswith(so)) and (se.startswith(ie_) or ie_.startswith(se)) and (rc == "timeout" or ik == "cut")
+                    elif ik == "ok": same = (so == io_ and se == ie_ and rc == 0)
+                    elif ik == "exit": same = (so == io_ and se == ie_ and rc == int(iend.split(" ")[1]))
+                    elif ik == "err": same = (so == io_ and se.startswith(ie_) and rc not in (0, 1))
+                    else: same = False
+                    if not same:
+                        rep.violation("correspondence", {"what": "the executable differs from the model's IR semantics (Prog.run) at level %d" % lvl, "prog": encs[k], "stdin": enc_text(i),
+                                                         "model": irr[:400], "got": {"stdout": so.decode("utf-8", "replace")[:300], "stderr": se.decode("utf-8", "replace")[:300], "status": rc}})
+                elif ok and not mm:
+                    rep.violation("correspondence", {"what": "the model's IR semantics gives no result", "prog": encs[k], "level": lvl, "model": irr[:200]})
                 if not ok:
                     rep.violation("impl-vs-spec", {"what": "compiled program (level %d) differs from interpreting the program" % lvl, "prog": encs[k], "source": render_prog(progs[k][0]),
                                                    "stdin": enc_text(i), "expected": {"stdout": wo.decode("utf-8", "replace")[:300], "stderr": we.decode("utf-8", "replace")[:300], "end": wend},
